@@ -77,6 +77,16 @@ def run_spin(seed, n, out):
         if r:
             out["failures"].append({"signature": r[0], "what": r[1],
                                     "case": {"kind": "spin", "s_num": s.numerator, "s_den": s.denominator, "flag": f}})
+    # second pass in the opposite order: the value must not depend on which calls came before (a result list that is
+    # cached and then modified in place would show here)
+    for s, f in reversed(cases[:42]):
+        out["evaluations"] += 1
+        out["kinds"]["spin_range_revisit"] = out["kinds"].get("spin_range_revisit", 0) + 1
+        r = check_spin_case(s, f)
+        if r and not any(x["case"].get("kind") == "spin_table" for x in out["failures"]):
+            out["failures"].append({"signature": "spin_range_depends_on_history", "what": "after the table of calls for all "
+                                    f"spins and both flags, create_spin_range({s}, no_zero_spin={f}): {r[1]}",
+                                    "case": {"kind": "spin_table", "seed": int(seed), "n": int(n)}})
     out["distinct"] += len(set(cases))
     try:
         out["samples"].append({"create_spin_range": "5/2,True", "value": create_spin_range(2.5, True)})
@@ -423,7 +433,11 @@ def main(seed, n):
 def replay(path):
     doc = json.load(open(path))
     case = doc["replay"]["case"]
-    if case["kind"] == "spin":
+    if case["kind"] == "spin_table":
+        o = {"evaluations": 0, "distinct": 0, "samples": [], "kinds": {}, "failures": []}
+        run_spin(case["seed"], case["n"], o)
+        still = any(f["case"].get("kind") == "spin_table" for f in o["failures"])
+    elif case["kind"] == "spin":
         still = check_spin_case(Fraction(case["s_num"], case["s_den"]), case["flag"]) is not None
     elif case["kind"] == "wigner":
         if case["x"] == "num":
@@ -431,6 +445,9 @@ def replay(path):
         else:
             still = bool(wigner_pair_symbolic((sp.Rational(case["j"]), sp.Rational(case["x"]), sp.Rational(case["y"]))))
     else:
+        # a model comparison is replayed with the prefix it had in the run: the spin-range table (create_spin_range for all
+        # spins and both flags) is evaluated first in the same process, as main() does before the workers are forked
+        run_spin(case["seed"], 60, {"evaluations": 0, "distinct": 0, "samples": [], "kinds": {}, "failures": []})
         r = run_reaction((case["label"], (case["alignment"],), case["seed"], case["nev"], "thorough"))
         still = any(f["signature"] == doc["signature"] for f in r["failures"])
     print(json.dumps({"still_fails": bool(still)}))
